@@ -159,7 +159,9 @@ class JetFunction:
         if not STATE['grad']:
             from .tensor import _map
             out = _map(el_detach, out)
-        return XT(out, rg=rg, leaf=not rg, dtype=y.dtype)
+        res = XT(out, rg=rg, leaf=not rg, dtype=y.dtype)
+        res.borrowed = True       # storage owned by user code (a user function may return its argument or a tensor it keeps): never written in place
+        return res
 
 
 def shift_symbol(name, which, d):
@@ -310,4 +312,6 @@ class DynJetFunction:
         if not STATE['grad'] and not STATE['transparent']:
             from .tensor import _map
             out = _map(el_detach, out)
-        return XT(out, rg=rg, leaf=not rg, dtype=y.dtype)
+        res = XT(out, rg=rg, leaf=not rg, dtype=y.dtype)
+        res.borrowed = True       # storage owned by user code (a user function may return its argument or a tensor it keeps): never written in place
+        return res
